@@ -22,6 +22,9 @@ CHECKS = {
  "C08": ("E2-token", "exhaustive enumeration of five hostile-input families, each case executed on the real compiler in an isolated worker process with watchdog",
          "All token strings of length <=3 (thorough 4) over a 40-token alphabet in 3 placements; every byte prefix and every single-token edit (delete/duplicate/swap/replace/insert x 40 tokens) of 33 feature modules (+ real-world modules); multi-byte characters at every character position; every module left inside each kind of unterminated item; all functional reference graphs on 3 nodes over 8 edge kinds with/without a value; nesting depth 2^k for 15 bracket-like recursions; 16 unsupported notations x 10 positions and ~60 hostile one-liners (341 k inputs quick, ~9 M thorough), both backends; compile + Display + contextualize of every error/warning must return within 10 s without panic or process death.",
          "Worker isolation (8 MiB stack, 6 GiB address-space cap, 10 s watchdog) attributes a death or expiry to the single in-flight input. Arbitrary byte soup outside the token alphabet is covered only through the multi-byte and prefix families. 7 known-finding classes on the pinned tree (unbounded recursion, exponential parse time, one unreachable!).", "§4 C08"),
+ "C11": ("E3-history", "exhaustive permutation / history (BFS) / schedule (shuttle DFS at hook points) exploration of real compilations against sequential and fresh-process references",
+         "All orders of every closed sub-list of <=5 assignments and the complete neighbourhood (reversal, adjacent transpositions, rotations) of a 17-assignment module with forward/backward references and ambiguous named numbers; all 24 orders of 4 modules inside a source and as separate sources; BFS over all operation histories of depth <=3 (thorough 4) from a 6-input alphabet covering every piece of per-run state, each step compared with a fresh process; shuttle::check_dfs over 2 threads x 1 compilation for 10 input pairs (49 k schedules quick; thorough adds 3x1 and 2x2) with scheduling points at the verif_hooks stage boundaries; byte-identical bindings and equal warning multisets required everywhere. An unstable (non-reproducing) discrepancy counts as a violation.",
+         "Hash seeds cannot be enumerated: 8 fresh processes per input sample them (labelled sampling). Interleavings are explored at stage boundaries only; shuttle runs model threads on one OS thread (std thread_local state would be shared: stricter than reality). A census of global/hashed state in the sources is written to the evidence.", "§4 C11"),
  "C12": ("E3-history", "exhaustive enumeration of module sets, import digraphs and hand-over orders; differential joint vs. stand-alone compilation on the real compiler",
          "2-module sets under all 8x8 tagging/extensibility default assignments x all import digraphs, 3-module sets with pairwise-distinct defaults x all 64 digraphs (cyclic included), 4-module ring/star/complete graphs (thorough); for each set every import-closed subset in every order as separate literals, once concatenated, with/without wildcard imports, with one duplicated source and with same-named definitions in all modules (29 k joint compilations thorough): each module's block must equal the block obtained with only its import closure; use lines, qualified references and imported-value constraints are compared with the model.",
          "Name mangling reference for module/type/value names is the documented rule (also checked by C16). The backend object is driven through the public Compiler API only.", "§4 C12"),
